@@ -1,0 +1,7 @@
+//go:build !verif
+// +build !verif
+
+package exec
+
+// verifManagerLoop is a no-op unless built with the tag "verif".
+func verifManagerLoop(*machineManager, *machineQ, *machineFailureQ, int, int) {}
